@@ -46,7 +46,7 @@ def gen_cases(tier, seed):
                 cases.append({"id": "L/%s/%d/%s" % (what, ln, route), "biglist": what, "length": ln, "route": route, "seed": ln})
     # metadata that came from another writer (file-level fields fastparquet never writes itself: column_orders) and is re-serialised by
     # merge / append / remove_row_groups / in-place key-value update
-    for i, op in enumerate(["merge", "merge_append", "merge_remove", "update_kv", "merge_overwrite", "write_common", "selection"] * (2 if tier == "quick" else 20)):
+    for i, op in enumerate(["merge", "merge_append", "merge_remove", "update_kv", "merge_overwrite", "write_common", "selection", "merge_handles", "merge_handles_append"] * (2 if tier == "quick" else 20)):
         cases.append({"id": "RS/%s/%d" % (op, i), "reser": op, "seed": 7000 + i, "route": "foreign", "nfiles": 2 + i % 3})
     return cases
 
@@ -140,14 +140,22 @@ def reserialise_case(case):
             FW.write_common_metadata(os.path.join(root, "_common_metadata"), pf.fmd, no_row_groups=True)
             check(os.path.join(root, "_common_metadata"), "write_common")
         else:
-            FW.merge(paths)
+            # (the pieces given as paths, or as handles the caller opened itself)
+            FW.merge([fastparquet.ParquetFile(p_) for p_ in paths] if op.startswith("merge_handles") else paths)
             check(os.path.join(root, "_metadata"), "merge:_metadata")
             check(os.path.join(root, "_common_metadata"), "merge:_common_metadata")
-            if op == "merge_append":
+            if op in ("merge_append", "merge_handles_append"):
+                before_files = set(os.listdir(root))
                 fastparquet.write(root, pd.DataFrame({"rid": np.arange(1000, 1005, dtype="int64"), "s": ["a", "b", "c", "d", "e"]}),
                                   file_scheme="hive", append=True, write_index=False)
                 check(os.path.join(root, "_metadata"), "append:_metadata")
                 check(os.path.join(root, "_common_metadata"), "append:_common_metadata")
+                # the part file(s) the append wrote carry a footer derived from the merged metadata
+                for fn_ in sorted(set(os.listdir(root)) - before_files):
+                    info_ = R.read_file(os.path.join(root, fn_), data_dir=root, check_pages=False)
+                    for code, where, detail in info_.diags:
+                        res["failures"].append({"kind": "idl_violation", "code": code, "where": "append:new part file:" + where, "detail": detail[:120], **ctx})
+                    counters["appended_part_footers_checked"] = counters.get("appended_part_footers_checked", 0) + 1
             elif op == "merge_remove":
                 pf = fastparquet.ParquetFile(root)
                 pf.remove_row_groups(pf.row_groups[0])
